@@ -19,6 +19,7 @@ import (
 	"bytes"
 	"fmt"
 	"path/filepath"
+	"sort"
 	"strconv"
 	"strings"
 	stdtime "time"
@@ -44,6 +45,8 @@ func c14Alphabet() []seqSym {
 		sy("FSET", "k1", "a", "f", "1"),
 		sy("JSET", "k1", "b", "y", "2"),
 		sy(append([]string{"SETCHAN", "chx", "EX", "0.73"}, fence...)...),
+		sy(append([]string{"SETCHAN", "chx"}, fence...)...), // a permanent definition over an expiring one
+		sy("DELCHAN", "chx"),
 		sy("@ADVANCE", "0.05"),
 		sy("@ADVANCE", "0.2"),
 		sy("@ADVANCE", "1"),
@@ -81,6 +84,7 @@ func checkC14(job *Job, res *Result) {
 	alpha := c14Alphabet()
 	phases := []int{0, 70, 140}
 	owned := map[string]bool{}
+	firstDump := map[string][2]string{}
 	nEdges := 0
 	stop := false
 	var wantPath []string
@@ -251,6 +255,15 @@ func checkC14(job *Job, res *Result) {
 				}
 				apply(alpha[e.Sym], true)
 				res.Distinct(fnv(e.Dst + fmt.Sprint(phase)))
+				// hidden timers: the internal state (expiry indexes of objects and of
+				// hooks, registries) must be the same on every path to this timed state
+				idump := timerDump(in.S)
+				key := e.Dst + fmt.Sprint("|", phase)
+				if a, ok := firstDump[key]; !ok {
+					firstDump[key] = [2]string{idump, strings.Join(full, " ; ")}
+				} else if a[0] != idump {
+					viol("hidden-timer-state:"+strings.ToLower(alpha[e.Sym].Args[0]), fmt.Sprintf("internal state differs from the one reached via [%s]: %s  vs  %s", a[1], vclip(idump, 400), vclip(a[0], 400)))
+				}
 				// 6. restart: what expired stays gone
 				if len(e.Path)+1 == depth || alpha[e.Sym].Args[0] == "@ADVANCE" {
 					before := fullDump(c)
@@ -286,4 +299,28 @@ func checkC14(job *Job, res *Result) {
 	res.Bounds["alphabet"] = len(alpha)
 	res.Bounds["sweeper_phases_ms"] = phases
 	res.Bounds["timed_model_states_total"] = total
+}
+
+// timerDump lists every pending timer the server holds: the expiry index of each
+// collection and the hook expiry queue (names only; deadlines are in the state key).
+func timerDump(s *Server) string {
+	var sb strings.Builder
+	s.cols.Scan(func(key string, col *collectionT) bool {
+		var ids []string
+		col.ScanExpires(func(o *objectT) bool {
+			ids = append(ids, o.ID())
+			return true
+		})
+		sort.Strings(ids) // index order depends on nanosecond differences between deadlines
+		sb.WriteString(key + "[" + strings.Join(ids, ",") + "]")
+		return true
+	})
+	var hs []string
+	s.hookExpires.Ascend(nil, func(v interface{}) bool {
+		hs = append(hs, v.(*Hook).Name)
+		return true
+	})
+	sort.Strings(hs)
+	sb.WriteString(" hooks[" + strings.Join(hs, ",") + "]")
+	return sb.String()
 }
